@@ -33,7 +33,7 @@ def gen_script(rnd, tier):
         for _ in range(rnd.choice([0, 0, 1, 1, 2])):
             kid[0] += 1
             iv.append("%d:%d" % (kid[0], rnd.random() < 0.4))
-        return (",".join(at) or "-", ",".join(tg) or "-", ",".join(iv) or "-")
+        return (",".join(at) or "-", ",".join(tg) or "-", ",".join(iv) or rnd.choice(["-", "-", "E"]))
 
     for i in range(1, n + 1):
         for _ in range(8):
@@ -93,7 +93,7 @@ def oracle(chk, lines, outs):
             continue
 
         def lst(s):
-            return [] if s == "-" else s.split(",")
+            return [] if s in ("-", "E") else s.split(",")
         if f[0] == "iface":
             k = int(f[1])
             ib[k] = [int(x) for x in lst(f[2])] or [0]
